@@ -12,8 +12,9 @@
      parse_files, the loop         `if let Some(main_component) = program.main_component { main_components.push(..) }`
                                    for every file that parses, in the order of their file ids ([main_components])
      parse_files, `match &main_components[..]`
-                                   [main_items]: `[]` and `[_]` add nothing here (what ProgramArchive::new
-                                   reports is NOT mirrored: parameter [rest]), `_` pushes MultipleMainError
+                                   [main_items]: `[]` and `[_]` add nothing here (the Merger reports of
+                                   duplicate_definitions / ProgramArchive::new: [merger_items], below), `_`
+                                   pushes MultipleMainError
      parse_files, the `match &mut result` that follows
                                    `remove_syntactic_sugar(.., reports)`: the reports of Model.Desugar (C18's
                                    mirror, compared with the real desugarer on every ./check C18) are appended
@@ -43,10 +44,32 @@
                                    mirrors LiftFull / Ssa return the error WITHOUT that payload, so it is the
                                    parameter [err_file] here (compared with the real reports on every run).
 
-   Not mirrored (parameters): the parser itself ([pragma], [has_main] and the program are what it yields for the
-   files that were read), ProgramArchive::new / TemplateLibrary::new and the anonymous-main check ([rest]), what
-   lifting, SSA and the passes produce besides the error ([after]).  The models of the other properties are
-   referred to by qualified name and are not modified. *)
+   parser/src/lib.rs
+     parse_files, the loop         `definitions.insert(file_id, program.definitions)` for every file whose parse_file
+                                   answered Ok: [all_definitions] (the map read in the order of the file ids, which
+                                   is how ProgramArchive::new, duplicate_definitions and TemplateLibrary::new read
+                                   it: `file_ids.sort_unstable()` / `sort_unstable_by_key`)
+     duplicate_definitions         (no main / several mains) and
+   program_structure/src/program_library/program_archive.rs  ProgramArchive::new (one main)
+                                   `for file_id in file_ids { merger.add_definitions(file_id, ..) }`, the Err
+                                   reports appended to the collection: [merger_items] in every mode
+   program_structure/src/program_library/program_merger.rs  Merger::add_definitions
+                                   [merger_from]: one name space (`contains_function(name) ||
+                                   contains_template(name)`), a definition whose name was entered before gets
+                                   `Report::error(.., SameSymbolDeclaredTwice)` with two primary labels, the file
+                                   of the duplicate and then the file of `first_definition(name)` ([SIDuplicate],
+                                   [item_report])
+   program_structure/src/program_library/template_library.rs  TemplateLibrary::new
+                                   [keep_first_from]: `if functions.contains_key(&name) ||
+                                   templates.contains_key(&name) { continue; }` — the first definition of a name
+                                   in file-id order / source order is the one kept; the two maps are
+                                   [program_of] (a ProgramArchive exists only when the Merger reported nothing,
+                                   and then holds the same definitions)
+
+   Not mirrored (parameters): the parser itself ([pragma], [has_main], [defs_of] and the line tables [lib] are what
+   it yields for the files that were read), the anonymous-main check ([rest'] of [tied_project]; [rest] of the
+   general [stage_project]), what lifting, SSA and the passes produce besides the error ([after]).  The models of
+   the other properties are referred to by qualified name and are not modified. *)
 From Coq Require Import ZArith NArith List Bool String.
 Require Import Model.Base Gen.Category Model.Runner.
 Require Gen.CompilerVersion.
@@ -76,7 +99,8 @@ Record codes := Codes {
   c_tuple : code;               (* ReportCode::TupleError *)
   c_anonymous : code;           (* ReportCode::AnonymousComponentError *)
   c_param_collision : code;     (* ReportCode::ParameterNameCollision *)
-  c_undefined : code            (* ReportCode::UninitializedSymbolInExpression *)
+  c_undefined : code;           (* ReportCode::UninitializedSymbolInExpression *)
+  c_same_symbol : code          (* ReportCode::SameSymbolDeclaredTwice *)
 }.
 
 (* the error values of generate_cfg *)
@@ -91,12 +115,15 @@ Inductive stage_item (path : Type) :=
 | SINoVersion (p : path)                           (* NoCompilerVersionWarning { path, version } *)
 | SIMultipleMain                                   (* MultipleMainError *)
 | SISugar (r : Desugar.report)                     (* TupleError / AnonymousComponentError raised by the desugarer *)
-| SILiftError (d : PM.definition) (e : lift_error) (file : option N).
+| SILiftError (d : PM.definition) (e : lift_error) (file : option N)
+| SIDuplicate (d first : PM.definition).           (* the report of Merger::add_definitions for [d]; [first] is the entered
+                                                      definition of that name *)
 Arguments SIVersionError {path}.
 Arguments SINoVersion {path}.
 Arguments SIMultipleMain {path}.
 Arguments SISugar {path}.
 Arguments SILiftError {path}.
+Arguments SIDuplicate {path}.
 
 (* TemplateData / FunctionData -> the two name maps of the runner *)
 Definition runner_kind (k : Ir.defkind) : kind :=
@@ -154,6 +181,11 @@ Section Stages.
                        | LEUndefined => (c_id (c_undefined cs), c_name (c_undefined cs))
                        end in
         mkReport Error i n (match file with Some f => [Z.of_N f] | None => [] end) (spay it)
+    (* program_merger.rs: `Report::error(.., ReportCode::SameSymbolDeclaredTwice)`,
+       `report.add_primary(meta.file_location(), file_id, ..)` then
+       `report.add_primary(first_location, first_id, ..)` *)
+    | SIDuplicate d first =>
+        mkReport Error (c_id (c_same_symbol cs)) (c_name (c_same_symbol cs)) [def_file d; def_file first] (spay it)
     end.
 
   (* ---- parser/src/lib.rs: check_compiler_version ---- *)
@@ -197,12 +229,55 @@ Section Stages.
   Definition with_body (d : PM.definition) (b : Ast.statement) : PM.definition :=
     PM.Def (PM.d_name d) (PM.d_kind d) (PM.d_params d) (PM.d_pfile d) (PM.d_ploc d) b.
 
+  (* ---- parse_files: `definitions.insert(file_id, program.definitions)` ----
+     the map read in the order of the file ids: the definitions of every file of the FileLibrary that parses, in
+     source order; [defs_of] is what the parser yields for a file that parses *)
+  Definition all_definitions (defs_of : path -> list PM.definition) (files : list (path * bool)) : list PM.definition :=
+    flat_map (fun f => if parses (fst f) then defs_of (fst f) else []) files.
+
+  (* ---- program_merger.rs: Merger::add_definitions over the files (ProgramArchive::new / duplicate_definitions) ----
+     [seen]: template_info and function_info together (one name space);
+       `if self.contains_function(name) || self.contains_template(name) { (Some(name), meta) }`   -> the report
+       `else { .. self.get_mut_template_info().insert(name.clone(), new_data); (None, meta) }`    -> entered *)
+  Fixpoint merger_from (seen all : list PM.definition) : list (stage_item path) :=
+    match all with
+    | [] => []
+    | d :: rest =>
+        match find_definition (PM.d_name d) seen with
+        | Some first => SIDuplicate d first :: merger_from seen rest
+        | None => merger_from (d :: seen) rest
+        end
+    end.
+  Definition merger_items (all : list PM.definition) : list (stage_item path) := merger_from [] all.
+
   (* the entries of the new map: the old TemplateData / FunctionData with the new body *)
   Definition survivors (defs : list PM.definition) (kept : list (string * Ast.statement)) : list PM.definition :=
     flat_map (fun nb => match find_definition (fst nb) defs with
                         | Some d => [with_body d (snd nb)]
                         | None => []
                         end) kept.
+
+  (* ---- template_library.rs: TemplateLibrary::new ----
+     [seen]: the maps `functions` and `templates` together;
+       `if functions.contains_key(&name) || templates.contains_key(&name) { continue; }` *)
+  Fixpoint keep_first_from (seen all : list PM.definition) : list PM.definition :=
+    match all with
+    | [] => []
+    | d :: rest =>
+        match find_definition (PM.d_name d) seen with
+        | Some _ => keep_first_from seen rest
+        | None => d :: keep_first_from (d :: seen) rest
+        end
+    end.
+  Definition keep_first (all : list PM.definition) : list PM.definition := keep_first_from [] all.
+
+  (* Definition::Function goes into `functions`, Definition::Template (custom gates included) into `templates` *)
+  Definition is_function (d : PM.definition) : bool :=
+    match PM.d_kind d with Ir.KFunction => true | Ir.KTemplate | Ir.KCustom => false end.
+
+  (* the library handed on: [lib] the line tables of the FileLibrary *)
+  Definition program_of (lib : list (list N)) (all : list PM.definition) : PM.program :=
+    PM.Program lib (filter (fun d => negb (is_function d)) (keep_first all)) (filter is_function (keep_first all)).
 
   (* the definitions handed to the runner *)
   Definition handed_on (pr : PM.program) (d : Desugar.desugared) : list PM.definition :=
@@ -256,6 +331,29 @@ Section Stages.
       (s : Includes.parse_state (path:=path)) (pr : PM.program) (d : Desugar.desugared) (rest : list report)
       : project :=
     Front.front_project pf_id pf_name payload s (stage_others s d rest) (stage_defs pr d).
+
+  (* ---- the project with the program TIED to the files that were read ----
+     the library is what TemplateLibrary::new (ProgramArchive::new when it answers Ok) makes of the definitions of
+     the files that parse, and the reports of Merger::add_definitions are in the collection; [rest']: the reports no
+     mirror covers (the anonymous-main check) *)
+  Definition tied_project (payload : Includes.report (path:=path) -> Z)
+      (s : Includes.parse_state (path:=path)) (lib : list (list N)) (defs_of : path -> list PM.definition)
+      (d : Desugar.desugared) (rest' : list report) : project :=
+    stage_project payload s (program_of lib (all_definitions defs_of (Includes.ps_files s))) d
+                  (map item_report (merger_items (all_definitions defs_of (Includes.ps_files s))) ++ rest').
+
+  (* the parser's `Parameters::from(.., file_id, ..)`: every definition of the i-th file of the FileLibrary carries
+     the file id i (a hypothesis of the theorems about the tied project, decidable, evaluated per run) *)
+  Fixpoint defs_file_ok_from (defs_of : path -> list PM.definition) (i : nat) (files : list (path * bool)) : bool :=
+    match files with
+    | [] => true
+    | f :: rest =>
+        (if parses (fst f)
+         then forallb (fun dd => match PM.d_pfile dd with Some g => N.eqb g (N.of_nat i) | None => false end)
+                      (defs_of (fst f))
+         else true)
+        && defs_file_ok_from defs_of (S i) rest
+    end.
 End Stages.
 
 (* the inputs of `remove_syntactic_sugar` *)
@@ -275,7 +373,10 @@ Definition meta_in_file (f : N) (m : Ast.meta) : bool :=
 Record stage_view := StageView {
   sv_reports : list (String.string * Z * Z * list Z);                          (* the stage reports *)
   sv_defs : list (kind * string * option (String.string * Z * Z * list Z));    (* handed on: kind, name, d_err *)
-  sv_metas_ok : bool                                                           (* the hypothesis above *)
+  sv_metas_ok : bool;                                                          (* the hypothesis above, all definitions *)
+  sv_defs_file_ok : bool;                                                      (* [defs_file_ok_from] *)
+  sv_all_defs : nat;                                                           (* length of [all_definitions] *)
+  sv_kept : nat                                                                (* length of [keep_first] of it *)
 }.
 
 Definition no_def : def := mkDef KTemplate 0 0 [] None [] [].
@@ -283,16 +384,20 @@ Definition no_def : def := mkDef KTemplate 0 0 [] None [] [].
 Definition stage_run (cs : codes) (pf_id pf_name : Z) (ord : nat -> list nat -> list nat) (horder : list nat -> list nat)
     (prime : Z) (kv kd : nat)
     (d : Includes.fs_data) (pragma : Includes.spath -> option version) (has_main : Includes.spath -> bool)
-    (argv libs : list Includes.spath) (pr : PM.program) (metas : Ast.statement -> list Ast.meta)
+    (argv libs : list Includes.spath) (lib : list (list N)) (defs_of : Includes.spath -> list PM.definition)
+    (metas : Ast.statement -> list Ast.meta)
     : outcome (option stage_view) :=
   Base.bind (Includes.run_project false d argv libs)
     (fun s =>
+       let all := all_definitions (Includes.d_content d) defs_of (Includes.ps_files s) in
+       let pr := program_of lib all in
        match sugar_input pr with
        | Desugar.DOk sd =>
            let reports :=
              map (item_report pf_id pf_name cs (fun _ => 0%Z))
                  (stage_items (Includes.d_content d) pragma has_main CompilerVersion.compiler_version
                               (Includes.ps_files s)
+                  ++ merger_items all
                   ++ sugar_items sd) in
            let defs :=
              map (fun dd =>
@@ -304,7 +409,8 @@ Definition stage_run (cs : codes) (pf_id pf_name : Z) (ord : nat -> list nat -> 
              forallb (fun dd => match PM.d_pfile dd with
                                 | Some f => forallb (meta_in_file f) (metas (PM.d_body dd))
                                 | None => false
-                                end) (PM.pr_templates pr ++ PM.pr_functions pr) in
-           Base.Ok (Some (StageView (map Front.report_view reports) defs ok))
+                                end) all in
+           let fok := defs_file_ok_from (Includes.d_content d) defs_of 0 (Includes.ps_files s) in
+           Base.Ok (Some (StageView (map Front.report_view reports) defs ok fok (length all) (length (keep_first all))))
        | _ => Base.Ok None
        end).
